@@ -91,6 +91,7 @@ type Obs struct {
 	Watches             int
 	WatchRVs            []string
 	ListRVs             []int
+	StaleAtList         []int
 	ListTimes           []int64 // virtual start time of every List call
 	InflightAtRead      int
 	PendingTimersAtRead int
@@ -331,6 +332,7 @@ func (in *Inst) Run() {
 		in.O.Lists, in.O.Watches, in.O.MaxFlight = in.Srv.Lists, in.Srv.Watches, in.Srv.MaxFlight
 		in.O.WatchRVs = append([]string{}, in.Srv.WatchRVs...)
 		in.O.ListRVs = append([]int{}, in.Srv.ListRVs...)
+		in.O.StaleAtList = append([]int{}, in.Srv.StaleAtList...)
 		in.O.ListTimes = append([]int64{}, in.Srv.ListTimes...)
 		in.O.InflightAtRead = in.Srv.Inflight
 		in.O.ServerRV = in.Srv.Version0()
